@@ -15,6 +15,7 @@ mod c12;
 mod c13;
 mod reg;
 mod c14;
+mod c15;
 mod c16;
 mod c17;
 mod c18;
@@ -45,6 +46,7 @@ fn main() {
         "c12" => c12::main(args),
         "c13" => c13::main(args),
         "c14" => c14::main(args),
+        "c15" => c15::main(args),
         "c16" => c16::main(args),
         "c17" => c17::main(args),
         "c18" => c18::main(args),
